@@ -382,6 +382,8 @@ def run(ctx):
         if f.get("property") == "C01" and f.get("status") == "known" and f.get("id") == "F1" and demonstrate_f1():
             ctx.known(f["line"])
     ctx.units("corpus", unit_corpus, [{}])
+    from . import magnitude
+    magnitude.run_big(ctx, "c01", "check_text", "text")
     ctx.units("scaling-families", unit_scaling, [{"bases": [20, 125] if q else [20, 125, 500]}])
     units = []
     for kind, n in (("noisy", 1200 if q else 12000), ("model", 500 if q else 4000), ("unicode", 500 if q else 6000), ("soup", 500 if q else 6000)):
